@@ -1,0 +1,66 @@
+//go:build verif
+
+// Contracts for package signaling_rpc_server, checked by /verif (bfvc). Comment-only.
+package signaling_rpc_server
+
+// mtx protects the two tables and every tracker object as a whole.
+//@ guards Server.mtx: peers, sessions, *sessionTracker, *sessionPeerTracker, *serverPeerTracker
+
+// Helpers of the trackers (called with mtx held).
+//@ func (*sessionTracker).checkSeqno
+//@   ensures (ret1 != nil) <==> t.seqno < seqno
+//@   ensures ret1 == nil ==> (ret0 <==> t.seqno == seqno)
+//@ func (*sessionTracker).broadcast
+//@   modifies t
+//@   ensures t.seqno == old(t.seqno) && t.peerA == old(t.peerA) && t.peerB == old(t.peerB)
+//@ func (*sessionTracker).getWaitCh
+//@   modifies t
+//@   ensures t.seqno == old(t.seqno) && t.peerA == old(t.peerA) && t.peerB == old(t.peerB)
+//@ func (*serverPeerTracker).broadcast
+//@   modifies p
+//@   ensures p.listening == old(p.listening) && p.wantPeers == old(p.wantPeers)
+//@ func (*serverPeerTracker).getWaitCh
+//@   modifies p
+//@   ensures p.listening == old(p.listening) && p.wantPeers == old(p.wantPeers)
+
+
+// ---- C20: the relay forwards only authentic messages, to the session partner, in the current epoch ----
+// handleSendMsg (closure $2 of Session). A pending message is placed only in the tracker of the
+// partner currently attached to this very session, only while this call's own tracker is the
+// attached local end, only for a message that verifies and carries the authenticated source
+// peer's ID, and only when the message's epoch equals the session's; a newer epoch is an error.
+//@ func (*Server).Session$2
+//@   noframe
+//@   requires s != nil && isobj(sess) && isobj(ourPeerTkr)
+//@   requires sendMsg == nil || (isobj(sendMsg) && (sendMsg.SignedMsg == nil || isobj(sendMsg.SignedMsg)))
+//@   ensures forall t *sessionPeerTracker trigger t.recv :: atlock(isobj(t)) && t.recv != atlock(t.recv) ==> ret == nil && t.recv == sendMsg && msgSessionSeqno == atlock(sess.seqno)
+//@   cs Server.mtx ensures forall t *sessionPeerTracker trigger t.recv :: old(isobj(t)) && t.recv != old(t.recv) ==> (localIsPeerA ==> old(sess.peerA) == ourPeerTkr && t == old(sess.peerB)) && (!localIsPeerA ==> old(sess.peerB) == ourPeerTkr && t == old(sess.peerA))
+//@   cs Server.mtx ensures forall t *sessionPeerTracker trigger t.recv :: old(isobj(t)) && t.recv != old(t.recv) ==> sendMsg != nil && sendMsg.SignedMsg != nil && b58ok(sendMsg.SignedMsg.FromPeerId) && b58enc(b58dec(sendMsg.SignedMsg.FromPeerId)) == srcPeerIDStr
+//@   ensures msgSessionSeqno > atlock(sess.seqno) ==> ret != nil
+//@   cs Server.mtx ensures sess.seqno == old(sess.seqno) && sess.peerA == old(sess.peerA) && sess.peerB == old(sess.peerB)
+
+// ---- C21 (relay side): acks and clears only affect the message they name ----
+// handleAckMsg (closure $3): the only effect is: if this call's tracker is the attached local end, a
+// partner is attached, the epoch is current and the message last transmitted to the local peer has
+// exactly the acked number, that transmission record is cleared and the partner's tracker is told
+// that number. No pending message is touched.
+//@ func (*Server).Session$3
+//@   noframe
+//@   requires s != nil && isobj(sess) && isobj(ourPeerTkr)
+//@   cs Server.mtx ensures forall t *sessionPeerTracker trigger t.recv :: old(isobj(t)) ==> t.recv == old(t.recv) && t.recvClear == old(t.recvClear)
+//@   cs Server.mtx ensures forall t *sessionPeerTracker trigger t.recvSent :: old(isobj(t)) && t.recvSent != old(t.recvSent) ==> t == ourPeerTkr && t.recvSent == nil && old(t.recvSent) != nil && old(deref(t.recvSent)) == ack && msgSessionSeqno == old(sess.seqno)
+//@   cs Server.mtx ensures forall t *sessionPeerTracker trigger t.outAcked :: old(isobj(t)) && t.outAcked != old(t.outAcked) ==> t.outAcked != nil && deref(t.outAcked) == ack && old(ourPeerTkr.recvSent) != nil && old(deref(ourPeerTkr.recvSent)) == ack && msgSessionSeqno == old(sess.seqno)
+//@   cs Server.mtx ensures forall t *sessionPeerTracker trigger t.outAcked :: old(isobj(t)) && t.outAcked != old(t.outAcked) ==> (localIsPeerA ==> old(sess.peerA) == ourPeerTkr && t == old(sess.peerB)) && (!localIsPeerA ==> old(sess.peerB) == ourPeerTkr && t == old(sess.peerA))
+//@   cs Server.mtx ensures sess.seqno == old(sess.seqno) && sess.peerA == old(sess.peerA) && sess.peerB == old(sess.peerB)
+
+// handleClearMsg (closure $4): a pending message is dropped only if it carries exactly the cleared
+// number; a transmission record is turned into a clear notice only if it names exactly that number.
+//@ func (*Server).Session$4
+//@   noframe
+//@   requires s != nil && isobj(sess) && isobj(ourPeerTkr)
+//@   cs Server.mtx ensures forall t *sessionPeerTracker trigger t.recv :: old(isobj(t)) && t.recv != old(t.recv) ==> t.recv == nil && old(t.recv) != nil && old(t.recv.Seqno) == clear && msgSessionSeqno == old(sess.seqno)
+//@   cs Server.mtx ensures forall t *sessionPeerTracker trigger t.recvSent :: old(isobj(t)) && t.recvSent != old(t.recvSent) ==> t.recvSent == nil && old(t.recvSent) != nil && old(deref(t.recvSent)) == clear && t.recvClear != nil && deref(t.recvClear) == clear && msgSessionSeqno == old(sess.seqno)
+//@   cs Server.mtx ensures forall t *sessionPeerTracker trigger t.recvClear :: old(isobj(t)) && t.recvClear != old(t.recvClear) ==> t.recvClear != nil && deref(t.recvClear) == clear && old(t.recvSent) != nil && old(deref(t.recvSent)) == clear
+//@   cs Server.mtx ensures forall t *sessionPeerTracker trigger t.recv :: old(isobj(t)) && (t.recv != old(t.recv) || t.recvSent != old(t.recvSent) || t.recvClear != old(t.recvClear)) ==> (localIsPeerA ==> old(sess.peerA) == ourPeerTkr && t == old(sess.peerB)) && (!localIsPeerA ==> old(sess.peerB) == ourPeerTkr && t == old(sess.peerA))
+//@   cs Server.mtx ensures forall t *sessionPeerTracker trigger t.outAcked :: old(isobj(t)) ==> t.outAcked == old(t.outAcked)
+//@   cs Server.mtx ensures sess.seqno == old(sess.seqno) && sess.peerA == old(sess.peerA) && sess.peerB == old(sess.peerB)
